@@ -87,11 +87,20 @@ pub unsafe fn naive_memchr_raw(needle: u8, start: *const u8, end: *const u8) -> 
     None
 }
 
-/// `ring` kind: HashRing's two private hash functions become table lookups, so that virtual-node positions
-/// are concrete per instance (the sort is then concrete) while the key's position is an arbitrary u64.
-pub static mut RING_VN: [[u64; 2]; 5] = [[0; 2]; 5];
+/// `ring` kind: HashRing's two private hash functions become lookups in a CONSTANT table selected by a scalar,
+/// so that virtual-node positions are constants for CBMC (the sort in add_node is then concrete) while the
+/// key's position is an arbitrary u64.
+pub const RING_LAYOUTS: [[[u64; 2]; 5]; 3] = [
+    [[0, 0], [100, 5000], [200, 6000], [300, 7000], [400, 8000]],
+    [[0, 0], [10, 20], [30, 18446744073709551615], [0, 40], [50, 60]],
+    [[0, 0], [9000, 100], [8000, 200], [7000, 300], [6000, 400]],
+];
+pub static mut RING_LAYOUT: usize = 0;
 pub static mut RING_KEY: u64 = 0;
-pub fn ring_vnode(node: redis_sim::replication::lattice::ReplicaId, idx: u32) -> u64 { unsafe { RING_VN[(node.0 as usize) % 5][(idx as usize) & 1] } }
+pub fn ring_vnode(node: redis_sim::replication::lattice::ReplicaId, idx: u32) -> u64 {
+    let l = unsafe { RING_LAYOUT };
+    RING_LAYOUTS[l % 3][(node.0 as usize) % 5][(idx as usize) & 1]
+}
 pub fn ring_key(_k: &str) -> u64 { unsafe { RING_KEY } }
 
 /// `pointer::align_offset` may return usize::MAX for any input (documented contract). Kani otherwise computes it
